@@ -269,6 +269,7 @@ def run_check(mod, tier: str, seed: int) -> int:
         samples=[dict(case=cases[i], impl_trace=obs[i]) for i in sample_idx],
         distribution=mod.distribution(cases, obs) if hasattr(mod, 'distribution') else {},
         coq_case_files=res.get('files', 0),
+        known_findings_reported=list(known_printed),
     )
     if tier == 'thorough' and ok_proof:
         import subprocess
